@@ -392,7 +392,7 @@ def explore_real(tier, rng, wd, drv, ex, ids, stats, violations):
     units, consts = unit_and_constant_names()
     others = [f for f in ex["files"] if not f.startswith("au/units/") and not f.startswith("au/constants/")] + \
              [f for f in ex["files"] if f.endswith("_fwd.hh")][:8]
-    n, n_compile = (60, 6) if tier == "quick" else (400, 24)
+    n, n_compile = (60, 6) if tier == "quick" else (400, 16)
     sels = gen_selections(rng, units, consts, others, n, n_compile)
     jobs = [{"units": s["units"], "constants": s["constants"], "mains": s["mains"], "io": s["io"],
              "text": s["id"] < n_compile} for s in sels]
@@ -775,6 +775,42 @@ def explore_malformed(tier, rng, wd, drv, stats, violations):
 
 
 # ----------------------------------------------------------------------------------------------
+# B3. the CMake packaging: the installed header set of target `au` is closed under project includes
+# ----------------------------------------------------------------------------------------------
+
+def explore_cmake(ex, stats, violations):
+    path = os.path.join(vlib.AU_INC, "au", "CMakeLists.txt")
+    txt = re.sub(r"#[^\n]*", "", open(path).read())
+    targets = {}
+    for m in re.finditer(r"header_only_library\(\s*NAME\s+(\w+)(.*?)\n\s*\)", txt, re.S):
+        body = m.group(2)
+        hs = re.search(r"HEADERS(.*?)(?:DEPS|$)", body, re.S)
+        targets[m.group(1)] = ["au/" + h for h in re.findall(r"[\w/.]+\.hh", hs.group(1))] if hs else []
+    listed_anywhere = set(re.findall(r"[\w/]+\.hh", txt))
+    au = targets.get("au", [])
+    stats["cmake_au_headers"] = len(au)
+    if not au:
+        violations.append(viol_order("cmake", "cannot find header_only_library(NAME au HEADERS …) in au/code/au/CMakeLists.txt",
+                                     "cmake-parse", {}, True, "correspondence: CMake parse"))
+        return
+    auset = set(au)
+    for h in au:
+        stats["evaluations"] += 1
+        if h not in ex["inc"]:
+            violations.append(viol_order("cmake", "CMake target `au` lists %s which does not exist" % h, "cmake-missing:" + h,
+                                         {"header": h}, False))
+    for h in sorted(closure(ex["inc"], [x for x in au if x in ex["inc"]]) - auset):
+        violations.append(viol_order("cmake", "%s is included (transitively) by the installed headers of CMake target `au` but is not "
+                                     "in its HEADERS: the installed package is not self-contained" % h, "cmake-closure:" + h,
+                                     {"header": h}, False))
+    for h in ex["files"]:
+        if h.endswith("_test_lib.hh"):
+            continue        # support header of a bazel-only test (fwd_test), not a public header
+        stats["evaluations"] += 1
+        if h[len("au/"):] not in listed_anywhere:
+            violations.append(viol_order("cmake", "%s is not part of any CMake target in au/code/au/CMakeLists.txt" % h,
+                                         "cmake-unlisted:" + h, {"header": h}, False))
+
 
 def main(tier, seed):
     t0 = time.time()
@@ -802,6 +838,7 @@ def main(tier, seed):
         t1 = time.time()
         compile_sels = explore_real(tier, rng, wd, drv, ex, ids, stats, violations)
         stats["real_s"] = round(time.time() - t1, 1)
+        explore_cmake(ex, stats, violations)
         t1 = time.time()
         explore_synth(tier, rng, wd, drv, stats, violations)
         explore_malformed(tier, rng, wd, drv, stats, violations)
